@@ -288,3 +288,73 @@ mm_facts = Lemma('mm_facts', ['a', 'b', 'n'], ne(n, 0),
                  doc='elementary facts about a*b mod n (symmetry, zero, one, reduced operands): keep the proofs from failing on harmless shortcuts')
 MULMOD.append(mm_facts)
 POWMOD.append(mm_facts)
+
+# ---------------------------------------------------------------------------------------------------------------- Jacobi symbol (encoded as J + 1 in {0,1,2})
+def _j(x, y): return App('jac', x, y)
+def _same_or_neg(c, x, y): return Ite(c, eq(x, y), eq(x + y, 2))
+_s8 = Or(eq(urem(n, 8), 1), eq(urem(n, 8), 7)); _rs = Or(eq(urem(a, 4), 1), eq(urem(n, 4), 1))
+jc_basic = Lemma('jc_basic', ['a', 'n'], TRUE,
+                 And(_j(a, n) <= K(2), eq(_j(1, n), 2), Imp(K(1) < n, eq(_j(0, n), 1)),
+                     Imp(ne(n, 0), And(Imp(eq(_j(a, n), 1), ne(App('gcd', a, n), 1)), Imp(ne(App('gcd', a, n), 1), eq(_j(a, n), 1))))),
+                 proof=r'''  have h1W : (1 : Nat) < W := by simp [W]
+  have h0W : (0 : Nat) < W := by simp [W]
+  rw [spec_jac_eq, spec_jac_eq, spec_jac_eq, spec_gcd_eq _ _ hW_a hW_n]
+  refine ⟨jac_enc_le a n, ?_, ?_, ?_⟩
+  · have := jacobiSym.one_left n
+    simp only [Nat.cast_one] at *
+    rw [this]; decide
+  · intro hn
+    have := @jacobiSym.zero_left n hn
+    simp only [Nat.cast_zero] at *
+    rw [this]; decide
+  · intro hn
+    have hn0 : 0 < n := Nat.pos_of_ne_zero hn
+    have hg := jac_gcd a n hn0
+    constructor
+    · intro h
+      apply hg.mp
+      rcases jacobiSym.trichotomy (a : ℤ) n with h' | h' | h'
+      · exact h'
+      · rw [h'] at h; exact absurd h (by decide)
+      · rw [h'] at h; exact absurd h (by decide)
+    · intro h
+      rw [hg.mpr h]; decide''',
+                 doc='Jacobi symbol basics: J in {-1,0,1}; (1|n) = 1; (0|n) = 0 for n > 1; (a|n) = 0 exactly when gcd(a,n) != 1')
+jc_even = Lemma('jc_even', ['a', 'n'], And(eq(urem(n, 2), 1), eq(urem(a, 2), 0)),
+                _same_or_neg(_s8, _j(a, n), _j(udiv(a, 2), n)),
+                proof=r'''  obtain ⟨hn, ha⟩ := hyp
+  rw [spec_jac_eq, spec_jac_eq]
+  have h := jac_even a n hn ha
+  have e2 : ((2 : Nat) : ℤ) = 2 := rfl
+  by_cases h8 : n % 8 = 1 ∨ n % 8 = 7
+  · simp only [h8, if_true, one_mul] at h ⊢
+    rw [h]
+  · simp only [h8, if_false] at h ⊢
+    rw [h]
+    rcases jacobiSym.trichotomy ((a / 2 : ℕ) : ℤ) n with h' | h' | h' <;> rw [h'] <;> decide''',
+                doc='(a|n) = (2|n) * (a/2|n) for even a, with (2|n) = +1 iff n = 1 or 7 (mod 8) (n odd)')
+jc_flip = Lemma('jc_flip', ['a', 'n'], And(eq(urem(a, 2), 1), eq(urem(n, 2), 1)),
+                And(urem(n, a) < a, _same_or_neg(_rs, _j(a, n), _j(urem(n, a), a))),
+                proof=r'''  obtain ⟨ha, hn⟩ := hyp
+  have ha0 : 0 < a := by omega
+  refine ⟨Nat.mod_lt _ ha0, ?_⟩
+  rw [spec_jac_eq, spec_jac_eq]
+  have h := jac_flip a n ha hn
+  by_cases h4 : a % 4 = 1 ∨ n % 4 = 1
+  · simp only [h4, if_true, one_mul] at h ⊢
+    rw [h]
+  · simp only [h4, if_false] at h ⊢
+    rw [h]
+    rcases jacobiSym.trichotomy ((n % a : ℕ) : ℤ) a with h' | h' | h' <;> rw [h'] <;> decide''',
+                doc='quadratic reciprocity with reduction: for odd a, n: (a|n) = +-(n mod a | a), + exactly when a = 1 or n = 1 (mod 4); and n mod a < a')
+JACOBI = [jc_basic, jc_even, jc_flip]
+JACOBI_PRELUDE = GCD_PRELUDE + open(__import__("os").path.join(__import__("os").path.dirname(__file__), "..", "..", "lemmas", "jacobi_core.lean")).read() + r'''
+theorem spec_jac_eq (a n : Nat) : spec_jac a n = (jacobiSym (a : ℤ) n + 1).toNat := by
+  unfold spec_jac
+  exact Nat.mod_eq_of_lt (lt_of_le_of_lt (jac_enc_le a n) (by simp [W]))
+'''
+x_ = V('x')
+rem_facts = Lemma('rem_facts', ['x', 'n'], ne(n, 0), And(urem(x_, n) < n, urem(x_, n) <= x_, Imp(x_ < n, eq(urem(x_, n), x_))),
+                  proof=r'''  have hn0 : 0 < n := Nat.pos_of_ne_zero hyp
+  exact ⟨Nat.mod_lt _ hn0, Nat.mod_le _ _, fun h => Nat.mod_eq_of_lt h⟩''', doc='x mod n < n, <= x, and = x when x < n')
+JACOBI.append(rem_facts)
